@@ -224,12 +224,12 @@ example : toOrd 2023 1 1 = 738521 ∧ occursDay mwf 738522 = true ∧ occursDay 
 /-! ## include / exclude (`rruleset`) -/
 
 /-- **include_exclude, order.** The combined schedule is strictly increasing in time: sorted, and
-    no instant twice — whatever the included and excluded parts are. -/
+    no instant (at microsecond resolution, `Inst.key`) twice — whatever the included and excluded parts are. -/
 theorem combine_sorted (base rdates exdates : List Inst) (incl excl : List (List Inst)) :
-    (combine base rdates exdates incl excl).Pairwise (fun a b => a.abs < b.abs) := by
+    (combine base rdates exdates incl excl).Pairwise (fun a b => a.key < b.key) := by
   unfold combine
   refine Pairwise.filter _ (Proofs.C15.dedupAdj_strict _ ?_)
-  have := pairwise_mergeSort (le := fun (a b : Inst) => decide (a.abs ≤ b.abs))
+  have := pairwise_mergeSort (le := fun (a b : Inst) => decide (a.key ≤ b.key))
     (fun a b c hab hbc => by simp only [decide_eq_true_eq] at *; omega)
     (fun a b => by simp only [Bool.or_eq_true, decide_eq_true_eq]; omega)
     (rdates ++ base ++ incl.flatten)
@@ -239,23 +239,23 @@ theorem combine_sorted (base rdates exdates : List Inst) (incl excl : List (List
     date or an included schedule, and to no excluded date or schedule:
     `result = (base ∪ include) \ exclude` as sets of instants. -/
 theorem combine_mem (base rdates exdates : List Inst) (incl excl : List (List Inst)) (t : Int) :
-    t ∈ (combine base rdates exdates incl excl).map (·.abs) ↔
-      t ∈ (rdates ++ base ++ incl.flatten).map (·.abs) ∧ t ∉ (exdates ++ excl.flatten).map (·.abs) := by
+    t ∈ (combine base rdates exdates incl excl).map (·.key) ↔
+      t ∈ (rdates ++ base ++ incl.flatten).map (·.key) ∧ t ∉ (exdates ++ excl.flatten).map (·.key) := by
   unfold combine
   simp only [mem_map, mem_filter, Bool.not_eq_true', List.contains_eq_mem, decide_eq_false_iff_not]
   constructor
   · rintro ⟨i, ⟨hi, hex⟩, rfl⟩
     refine ⟨?_, ?_⟩
-    · have : i.abs ∈ (dedupAdj ((rdates ++ base ++ incl.flatten).mergeSort _)).map (·.abs) :=
+    · have : i.key ∈ (dedupAdj ((rdates ++ base ++ incl.flatten).mergeSort _)).map (·.key) :=
         mem_map.2 ⟨i, hi, rfl⟩
-      rw [Proofs.C15.dedupAdj_abs] at this
+      rw [Proofs.C15.dedupAdj_key] at this
       obtain ⟨j, hj, hje⟩ := mem_map.1 this
       exact ⟨j, mem_mergeSort.1 hj, hje⟩
     · simpa [mem_map] using hex
   · rintro ⟨⟨j, hj, rfl⟩, hex⟩
-    have : j.abs ∈ (dedupAdj ((rdates ++ base ++ incl.flatten).mergeSort
-        (fun a b => decide (a.abs ≤ b.abs)))).map (·.abs) := by
-      rw [Proofs.C15.dedupAdj_abs]
+    have : j.key ∈ (dedupAdj ((rdates ++ base ++ incl.flatten).mergeSort
+        (fun a b => decide (a.key ≤ b.key)))).map (·.key) := by
+      rw [Proofs.C15.dedupAdj_key]
       exact mem_map.2 ⟨j, mem_mergeSort.2 hj, rfl⟩
     obtain ⟨i, hi, hie⟩ := mem_map.1 this
     refine ⟨i, ⟨hi, ?_⟩, hie⟩
@@ -265,9 +265,9 @@ theorem combine_mem (base rdates exdates : List Inst) (incl excl : List (List In
 /-- non-vacuity: 20 is in the rule and (in another zone) among the included dates: emitted once;
     30 is excluded by a date, 10 by an excluded schedule -/
 example :
-    let c := combine [⟨10, 0⟩, ⟨20, 0⟩, ⟨30, 0⟩] [⟨15, 0⟩, ⟨20, 3600⟩] [⟨30, 0⟩] [[⟨5, 0⟩]] [[⟨10, 7⟩]]
-    (20 : Int) ∈ c.map (·.abs) ∧ (5 : Int) ∈ c.map (·.abs) ∧ (30 : Int) ∉ c.map (·.abs) ∧
-      (10 : Int) ∉ c.map (·.abs) := by
+    let c := combine [⟨10, 0, 0⟩, ⟨20, 0, 0⟩, ⟨30, 0, 0⟩] [⟨15, 0, 0⟩, ⟨20, 3600, 0⟩] [⟨30, 0, 0⟩] [[⟨5, 0, 0⟩]] [[⟨10, 7, 0⟩]]
+    (20000000 : Int) ∈ c.map (·.key) ∧ (5000000 : Int) ∈ c.map (·.key) ∧ (30000000 : Int) ∉ c.map (·.key) ∧
+      (10000000 : Int) ∉ c.map (·.key) := by
   intro c
   simp only [c, combine_mem]
   decide
@@ -288,7 +288,7 @@ theorem wiring_identity_keywords (p : Params) :
 
 /-- the input that exposed the repaired wiring defect -/
 def d13Witness : Params :=
-  { freq := .minutely, sOrd := 738946, sSod := 0, off := 0, datePrecision := false, interval := 1,
+  { freq := .minutely, sOrd := 738946, sSod := 0, sUs := 0, off := 0, datePrecision := false, interval := 1,
     count := none, untilArg := none, bymonth := none, bymonthday := none, byyearday := none,
     byweekno := none, byweekday := none, byhour := none, byminute := none, bysecond := some [30] }
 
@@ -296,31 +296,82 @@ def d13Witness : Params :=
 example : (pluginRule d13Witness).byweekno = none ∧ (pluginRule d13Witness).bysecond = some [30] := by
   decide
 
-/-- **zone_consistency** (full strength since fix eef84fd). For every start (time of day, zone)
-    and every form of the argument — date, date string, `datetime` object with or without zone,
-    datetime string with or without offset — `until`, `include` and `exclude` denote the instant
-    the recipe describes: dates at the start's time of day *in the start's zone*, datetimes in
-    their own zone (naive = UTC, as for `start_date`), a datetime-valued `until` with its time. -/
-theorem zone_consistency (sSod : Nat) (off : Int) (a : DateArg) :
+/-- **zone_consistency** (full strength since fix eef84fd). For every start (time of day, zone,
+    microseconds) and every form of the argument — date, date string, `datetime` object with or
+    without zone, datetime string with or without offset — `until`, `include` and `exclude` denote
+    the described instant *to the second* and carry the described zone: dates at the start's time
+    of day in the start's zone, datetimes in their own zone (naive = UTC, as for `start_date`),
+    a datetime-valued `until` with its time. (Sub-second precision: see `date_arg_instant_*`.) -/
+theorem zone_consistency (sSod sUs : Nat) (off : Int) (a : DateArg) :
     normUntil sSod off a = intendedUntil sSod off a ∧
-    normDateArg sSod off a = intendedDateArg sSod off a := by
+    (normDateArg sSod sUs off a).map (fun i => (i.abs, i.off)) =
+      (intendedDateArg sSod off a).map (fun i => (i.abs, i.off)) := by
   cases a <;> exact ⟨rfl, rfl⟩
 
 /-- include / exclude entries are never rejected (a naive timestamp used to raise a TypeError
-    inside `rruleset`), and a date-valued entry carries the start's offset -/
-theorem date_args_total (sSod : Nat) (off : Int) (a : DateArg) :
-    (normDateArg sSod off a).isSome = true ∧
-    (∀ d, normDateArg sSod off (.date d) = some ⟨(d : Int) * 86400 + sSod - off, off⟩) := by
-  refine ⟨by cases a <;> rfl, fun _ => rfl⟩
+    inside `rruleset`) -/
+theorem date_args_total (sSod sUs : Nat) (off : Int) (a : DateArg) :
+    (normDateArg sSod sUs off a).isSome = true := by
+  cases a <;> rfl
+
+/-- **date_arg_instant — full statement `∀ sSod sUs off a, normDateArg sSod sUs off a =
+    intendedDateArg sSod off a` is refuted (D53):** with a start of `…:59.99` a date-valued
+    `include` / `exclude` is placed at `.99` s, but `rrule` drops the microseconds of `dtstart`
+    and emits `…:59.00` — the date does not denote the rule's occurrence of that date. -/
+theorem date_arg_instant_refuted :
+    ∃ (sSod sUs : Nat) (off : Int) (a : DateArg), normDateArg sSod sUs off a ≠ intendedDateArg sSod off a :=
+  ⟨86399, 990000, 28800, .date 738826, by decide⟩
+
+/-- **date_arg_instant_partial.** For a start on a whole second every form of the argument
+    denotes exactly the described instant. -/
+theorem date_arg_instant_partial (sSod : Nat) (off : Int) (a : DateArg) :
+    normDateArg sSod 0 off a = intendedDateArg sSod off a := by
+  cases a <;> rfl
+
+/-- **excluded_date_hits_occurrence — refuted (D53).** The statement "the value a date-valued
+    `exclude` / `include` stands for is the instant at which the rule occurs on that date" fails
+    for a fractional start: the keys differ, so `rruleset` neither excludes the occurrence nor
+    merges an included date with it (the date is emitted a second time, at `.99`). -/
+theorem excluded_date_hits_occurrence_refuted :
+    ∃ (r : Rule) (sUs d : Nat),
+      (atStartTime r.sSod sUs r.off d).key ≠ (r.inst (d * 86400 + r.sSod)).key ∧
+      combine [r.inst (d * 86400 + r.sSod)] [] [atStartTime r.sSod sUs r.off d] [] [] ≠ [] := by
+  refine ⟨{ mwf with sSod := 86399, off := 28800 }, 990000, 738826, by decide, ?_⟩
+  intro h
+  have hm := (combine_mem [({ mwf with sSod := 86399, off := 28800 } : Rule).inst (738826 * 86400 + 86399)] []
+    [atStartTime 86399 990000 28800 738826] [] [] ((738826 * 86400 + 86399 - 28800 : Int) * 1000000)).2
+    ⟨by decide, by decide⟩
+  rw [h] at hm
+  cases hm
+
+/-- **excluded_date_hits_occurrence_partial.** With a whole-second start the date stands for
+    exactly the rule's instant of that date, and excluding it removes that occurrence. -/
+theorem excluded_date_hits_occurrence_partial (r : Rule) (d : Nat) :
+    (atStartTime r.sSod 0 r.off d).key = (r.inst (d * 86400 + r.sSod)).key ∧
+    combine [r.inst (d * 86400 + r.sSod)] [] [atStartTime r.sSod 0 r.off d] [] [] = [] := by
+  have hk : (atStartTime r.sSod 0 r.off d).key = (r.inst (d * 86400 + r.sSod)).key := by
+    simp only [atStartTime, Rule.inst, Inst.key]
+    omega
+  refine ⟨hk, ?_⟩
+  cases hc : combine [r.inst (d * 86400 + r.sSod)] [] [atStartTime r.sSod 0 r.off d] [] [] with
+  | nil => rfl
+  | cons x t =>
+    have hx : x.key ∈ (combine [r.inst (d * 86400 + r.sSod)] [] [atStartTime r.sSod 0 r.off d] [] []).map (·.key) := by
+      rw [hc]; simp
+    rw [combine_mem] at hx
+    obtain ⟨h1, h2⟩ := hx
+    simp only [List.nil_append, List.flatten_nil, List.append_nil, List.map_cons, List.map_nil,
+      List.mem_singleton] at h1 h2
+    exact absurd (h1.trans hk.symm) h2
 
 /-- the inputs that exposed the repaired zone defects (D21 `+05:00` start with a date-valued
     `until`; D35 a datetime-valued `until` at 05:00 with a 10:00 start; D36 a naive timestamp):
     the plugin's reading now is the described instant -/
 example :
     normUntil 36000 18000 (.date 738948) = (738948 : Int) * 86400 + 36000 - 18000 ∧
-    normUntil 36000 0 (.dtObj 738948 18000 none) = (738948 : Int) * 86400 + 18000 ∧
-    normDateArg 36000 18000 (.date 738947) = some ⟨(738947 : Int) * 86400 + 36000 - 18000, 18000⟩ ∧
-    normDateArg 36000 0 (.dtObj 738947 36000 none) = some ⟨(738947 : Int) * 86400 + 36000, 0⟩ := by
+    normUntil 36000 0 (.dtObj 738948 18000 0 none) = (738948 : Int) * 86400 + 18000 ∧
+    normDateArg 36000 0 18000 (.date 738947) = some ⟨(738947 : Int) * 86400 + 36000 - 18000, 18000, 0⟩ ∧
+    normDateArg 36000 0 0 (.dtObj 738947 36000 0 none) = some ⟨(738947 : Int) * 86400 + 36000, 0, 0⟩ := by
   decide
 
 /-- **rule_identity** (full strength): the rule the plugin hands to the recurrence engine *is*
@@ -332,7 +383,7 @@ theorem rule_identity (p : Params) : pluginRule p = intendedRule p := by
     intro o
     cases o with
     | none => simp
-    | some u => simp [(zone_consistency p.sSod p.off u).1]
+    | some u => simp [(zone_consistency p.sSod p.sUs p.off u).1]
   have e : pluginRule p = { intendedRule p with untilAbs := p.untilArg.map (normUntil p.sSod p.off) } := rfl
   rw [e, h2]
   rfl
@@ -403,15 +454,8 @@ theorem interval_never_reaches_engine (p : Params) (H : Int) :
         have : (r.interval == 0) = false := by simp; omega
         rw [this]
         simp only [Bool.false_eq_true, if_false]
-        split
-        · intro hh; cases hh
-        · split
-          · intro hh; cases hh
-          · split
-            · intro hh; cases hh
-            · split
-              · intro hh; cases hh
-              · intro hh; cases hh
+        repeat' split
+        all_goals (intro hh; cases hh)
       cases hpc : precheck r with
       | error e' =>
         rw [hpc] at ho
@@ -497,6 +541,38 @@ example :
       (evalMemo keyParts id (evalMemo keyParts id [] a).2 b).1 = b := by
   decide
 
+/-- **inclusions_are_distinct_call_sites.** The templates that include a macro get pairwise
+    disjoint sets of call-site identities (each inclusion parses the fields anew), all beyond the
+    identities handed out before: with `cache_key_injective` every including template therefore
+    owns its schedule and its k-th row carries the k-th occurrence from `start_date`. -/
+theorem inclusions_are_distinct_call_sites (next n k : Nat) :
+    (includeMacro next n k).1.length = k ∧
+    (includeMacro next n k).2 = next + k * n ∧
+    (∀ ids ∈ (includeMacro next n k).1, ids.length = n ∧ ∀ i ∈ ids, next ≤ i ∧ i < next + k * n) ∧
+    (includeMacro next n k).1.Pairwise (fun a b => ∀ i ∈ a, ∀ j ∈ b, i ≠ j) := by
+  induction k generalizing next with
+  | zero => simp [includeMacro]
+  | succ k ih =>
+    obtain ⟨h1, h2, h3, h4⟩ := ih (next + n)
+    simp only [includeMacro, parseFields]
+    refine ⟨by simp [h1], by rw [h2, Nat.succ_mul]; omega, ?_, ?_⟩
+    · intro ids hids
+      rcases List.mem_cons.1 hids with rfl | hm
+      · refine ⟨by simp, fun i hi => ?_⟩
+        have := List.mem_range'_1.1 hi
+        rw [Nat.succ_mul]; omega
+      · obtain ⟨a, b⟩ := h3 ids hm
+        refine ⟨a, fun i hi => ?_⟩
+        have := b i hi
+        rw [Nat.succ_mul]; omega
+    · rw [List.pairwise_cons]
+      refine ⟨fun b hb i hi j hj => ?_, h4⟩
+      have hi' := List.mem_range'_1.1 hi
+      have hj' := (h3 b hb).2 j hj
+      omega
+
+example : (includeMacro 10 2 3).1 = [[10, 11], [12, 13], [14, 15]] := by decide
+
 /-! ## Precision of the emitted values -/
 
 /-- **precision.** A field (`next()`) with a date-precision start sees the local calendar date
@@ -504,13 +580,13 @@ example :
     of the rule itself carry the start's offset. -/
 theorem precision (i : Inst) (r : Rule) (L : Nat) :
     emit true true i = .date ((i.abs + i.off) / 86400) ∧
-    emit false true i = .datetime i.abs i.off ∧
-    (∀ dp, emit dp false i = .datetime i.abs i.off) ∧
-    (r.inst L).off = r.off ∧ (r.inst L).abs + (r.inst L).off = L := by
-  refine ⟨rfl, rfl, ?_, rfl, ?_⟩
+    emit false true i = .datetime i.abs i.off i.us ∧
+    (∀ dp, emit dp false i = .datetime i.abs i.off i.us) ∧
+    (r.inst L).off = r.off ∧ (r.inst L).abs + (r.inst L).off = L ∧ (r.inst L).us = 0 := by
+  refine ⟨rfl, rfl, ?_, rfl, ?_, rfl⟩
   · intro dp; cases dp <;> rfl
   · simp only [Rule.inst]; omega
 
-example : emit true true ⟨(toOrd 2024 3 1 : Nat) * 86400 + 36000, 0⟩ = .date (toOrd 2024 3 1) := by decide
+example : emit true true ⟨(toOrd 2024 3 1 : Nat) * 86400 + 36000, 0, 0⟩ = .date (toOrd 2024 3 1) := by decide
 
 end SnowModel.Props.C15
